@@ -466,8 +466,10 @@ void ezc3d::c3d::updateHeader()
                 if (static_cast<size_t>(header().nbAnalogByFrame()) != 1)
                     _header->nbAnalogByFrame(1);
             } else {
-                if (static_cast<size_t>(parameters().group("ANALOG").parameter("RATE").valuesAsFloat().at(0) / pointRate)  != static_cast<size_t>(header().nbAnalogByFrame()))
-                    _header->nbAnalogByFrame(static_cast<size_t>(parameters().group("ANALOG").parameter("RATE").valuesAsFloat().at(0) / pointRate));
+                // Both rates are 32-bit floats: their quotient can fall just below the whole number of subframes (23.976 Hz x 15)
+                size_t nbSubframes(static_cast<size_t>(std::round(parameters().group("ANALOG").parameter("RATE").valuesAsFloat().at(0) / pointRate)));
+                if (nbSubframes != static_cast<size_t>(header().nbAnalogByFrame()))
+                    _header->nbAnalogByFrame(nbSubframes);
             }
         }
     }
